@@ -41,6 +41,18 @@ CHECKS = {
          "For every type, every tuple with <=2 fields away from byte-asymmetric defaults (full product for short schemas) is encoded by the reference encoder and parsed by the real parser (alone and followed by another record): the observed fields must equal the tuple; the same tuple built through constructors must produce exactly the reference RDATA under the IANA type code. All LOC versions 1..=255, all SVCB/HTTPS key sequences over {0,1,2}^<=3, all NSEC window sequences over {0,1,2,255}^<=3 and every inner length set one past the RDATA end must be rejected. The reference schemas are validated at start-up against 30 dnspython-generated sample records.",
          "Trusts the schema transcription in mc/src/refmodel/schema.rs (cross-checked against the sample records). OPT is covered by C09. Forms the library's data model cannot express are outside the checked domain.",
          "DESIGN.md section 3, C10"),
+ "C03": ("exhaustive enumeration of the name-sharing space (21 record kinds x every assignment of 15 small names to 4/5 name slots), a 16 KiB straddle family and 64 KiB messages, each serialised plain and compressed by the real code, both parsed and compared",
+         "Every packet of the sharing space (1.06e6 quick, 1.6e7 thorough) plus the first occurrence of a shared name at every offset 16360..=16400 and messages up to 65 KiB is built, written with and without compression, parsed back and observed; the two observations must be equal field by field and the compressed form must not be longer. Names over {a,b} up to three labels realise every sharing relation between names (equal, suffix, differing first/last label, disjoint) across question, owner and RDATA positions of compressible and non-compressible types.",
+         "Uses the library's own parser as the decoder for this property (C07 audits the same outputs with an independent decoder).",
+         "DESIGN.md section 3, C03"),
+ "C05": ("exhaustive enumeration of RDLENGTH mis-sizings (0..=natural+16/40 for each of 42 type codes, four surplus fillers, sentinel records, three placements, count perturbations) and of free RDATA strings with every RDLENGTH, parsed by the real code and compared entry by entry with an independent RFC 1035 envelope walker",
+         "For each type code the RDLENGTH of one record sweeps from 0 past its natural size with the surplus holding zeros, complete phantom records or pointers, followed by sentinel records; plus every RDATA string up to length 5 (6) over 9 symbols with every RDLENGTH. Whenever the real parser accepts, its questions and records must correspond one-to-one, in order, to the entries the walker delimits (owner, type, class, cache-flush, TTL), typed RDATA must be decodable from exactly the RDLENGTH bytes, and whenever the walker runs off the end the parser must reject. Well-framed messages must be accepted.",
+         "The walker (mc/src/refmodel/wire.rs) is the trusted reference for framing; a library Err on a mis-sized RDLENGTH is accepted as the property allows.",
+         "DESIGN.md section 3, C05"),
+ "C07": ("exhaustive enumeration of the C03 packet spaces x writer start offsets {vec,0,1,2,12,300}; every compressed output audited by an independent schema-aware walker that locates every name occurrence and every pointer",
+         "For every packet and start offset the compressed bytes are decoded by the reference decoder (must equal the intended packet, so every pointer expands to the intended name and is message-relative), and every in-place pointer is checked to point strictly backwards at the start of a label written in place earlier; no pointer may appear inside SRV/NAPTR/KX/RRSIG/NSEC/IPSECKEY/SVCB/HTTPS RDATA; a whole name repeated in a compressible position whose earlier occurrence starts at <= 16383 must be a bare pointer. The straddle family puts first occurrences on both sides of 16384.",
+         "Suffix sharing between different names is allowed but not demanded; RP/AFSDB/RT/NSAP-PTR names may or may not be compressed (the property is silent).",
+         "DESIGN.md section 3, C07"),
 }
 NOT_YET = {}
 
